@@ -695,6 +695,7 @@ func blockContainsAccounts(block *old_faithful_grpc.BlockResponse, accounts []st
 		meta, err := solanatxmetaparsers.ParseTransactionStatusMetaContainer(tx.Meta)
 		if err != nil {
 			klog.Errorf("Failed to parse transaction meta: %v", err)
+			continue
 		}
 
 		loadedAccounts := meta.GetLoadedAccounts()
